@@ -583,6 +583,9 @@ func checkPLHandler(c *fw.Ctx, fn *ssa.Function) {
 				case strings.Contains(sg, "userPowerLevel(") && strings.Contains(sg, ".SenderID(param:event)"):
 				case proposedSrc:
 					bad = "the sender's level is read from the proposed content (" + sg + ")"
+				case strings.Contains(sg, ").UserLevel(") && !strings.Contains(sg, "userPowerLevel("):
+					// the raw table entry: no creator privilege (v12), no defaults without a power-levels event
+					bad = "the sender's level is read with UserLevel() from the stored content (" + sg + ") instead of through userPowerLevel: privileged creators and rooms without a power-levels event get the wrong level"
 				default:
 					unk = sg
 				}
